@@ -30,7 +30,7 @@ RULE = (
 )
 H1 = stacks.H1
 STORES = ("set", "add", "replace", "cas", "set_many")
-FETCHES = ("get", "gets", "gat", "gats", "get_many", "gets_many")
+FETCHES = ("get", "gets", "gat", "gats", "gat0", "gats0", "get_many", "gets_many")  # gat0/gats0: expire left at its default
 
 
 def incompressible(n):
@@ -174,6 +174,10 @@ def round_trip(key, value, serde, store, fetch, delivery, prefix=b"", encoding="
             r = c.gat(key, expire=100)
         elif fetch == "gats":
             r = c.gats(key, expire=100)[0]
+        elif fetch == "gat0":
+            r = c.gat(key)
+        elif fetch == "gats0":
+            r = c.gats(key)[0]
         elif fetch == "get_many":
             d = c.get_many([key, "other-key", "absent"])
             r = d.get(key, "<MISSING>")
@@ -280,6 +284,10 @@ def _w_keys(job, chk):
     # repeated keys: the same key twice before / after other keys
     a, b, c3 = universe[0], universe[1], universe[4]
     subsets += [(a, a), (a, a, b), (a, b, a), (a, a, b, c3), (b, a, a, c3), (a, b, b, c3, c3)]
+    if uni:
+        # canonically equivalent but different strings are different keys (different bytes on the wire)
+        subsets += [("cafe\u0301", "caf\u00e9"), ("caf\u00e9", "cafe\u0301", "a"), ("\u212b", "\u00c5", "A\u030a"),
+                    ("\u1e9b\u0323", "\u1e9b\u0323".encode("utf8")[:0] + b"x", "\u017f\u0323\u0307")]
     for keys in subsets:
         present = [k for i, k in enumerate(dict.fromkeys(keys)) if i % 3 != 2 or len(keys) < 3]
         for fetch in ("get_many", "gets_many"):
